@@ -250,3 +250,15 @@ func TestC17Wide(t *testing.T) {
 	defer st.Flush()
 	rapid.Check(t, c17Prop(st, FamWide))
 }
+
+func TestC17ManyFields(t *testing.T) {
+	st := NewStats("C17ManyFields", c17Rule)
+	defer st.Flush()
+	rapid.Check(t, c17Prop(st, FamManyFields))
+}
+
+func TestC17Mid(t *testing.T) {
+	st := NewStats("C17Mid", c17Rule)
+	defer st.Flush()
+	rapid.Check(t, c17Prop(st, FamMid))
+}
